@@ -114,7 +114,7 @@ func (ex *Exec) intrinsic(fn *ssa.Function, args []Value) (Value, bool) {
 			return p.Not(args[0].(*Term)), true
 		case "vImplies":
 			return p.Implies(args[0].(*Term), args[1].(*Term)), true
-		case "vIte", "vIteInt":
+		case "vIte", "vIteInt", "vIteByte":
 			return p.Ite(args[0].(*Term), args[1].(*Term), args[2].(*Term)), true
 		case "vEqBytes":
 			return ex.termsEq(ex.sliceTerms(asSlice(args[0])), ex.sliceTerms(asSlice(args[1]))), true
